@@ -745,6 +745,16 @@ class Interp:
             fs = [self.c_operand(f, fn) for f in split_top(inner)]
             nm = mt.group(1)
             return lambda ctx, fr: Agg(nm, [f(ctx, fr) for f in fs])
+        if re.fullmatch(r'[A-Z]\w*', s):
+            # a bare unit variant printed with a trimmed path (`Equal`, `None`)
+            if s in ORDERING:
+                return lambda ctx, fr: ordering(ORDERING[s])
+            owners = [(c, e) for c, info in self.crates.items() for e, vs in info.enums.items() if vs and s in vs]
+            owners += [(None, e) for e, vs in BUILTIN_ENUMS.items() if s in vs]
+            if len(owners) == 1:
+                c, e = owners[0]
+                k = (self.crates[c].enums[e] if c else BUILTIN_ENUMS[e]).index(s)
+                return lambda ctx, fr: Agg(e, [], s, k)
         raise Unsupported('rvalue ' + s)
 
     # ------------------------------------------------------------------ compile: statements
@@ -1023,6 +1033,11 @@ class Interp:
                     if len(cand) > 4: return info.mir.fns[cand[3]][cand[4]]
                     return self._pick(info, [cand[3]])
                 return None
+            if not cands:
+                # blanket impl `impl<T: Bound> Trait for T`
+                bl = [c for (t, tr, me), cs in info.trait_impls.items() if tr == trait and me == meth for c in cs if c[2].strip() in c[1]]
+                if len(bl) == 1 and (self._type_known(info, last_seg(ty)) or any(k[0] == last_seg(ty) for k in info.trait_impls)):
+                    return self._pick(info, [bl[0][3]])
             d = info.trait_defaults.get((trait, meth))
             if d and (self._type_known(info, last_seg(ty)) or any(k[0] == last_seg(ty) and k[1] == trait for k in info.trait_impls)):
                 return self._pick(info, [d])
